@@ -75,10 +75,16 @@ func c12IsCatastrophic(text string) bool {
 	return text == c12Catastrophic || strings.Contains(text, "aaaaaaaaaaaaaaaa")
 }
 
+// a deep-backtracking text: linear work, but enough of it that an 8 ms deadline may or may not fire: never
+// given to the timed patterns
+func c12IsDeep(text string) bool {
+	return len(text) > 8000 && strings.HasPrefix(text, "abab")
+}
+
 // a text from the list that is not catastrophic (the empty text if there is none)
 func c12Calm(r *Rng, texts []string) string {
 	for try := 0; try < 50; try++ {
-		if t := texts[r.Intn(len(texts))]; !c12IsCatastrophic(t) {
+		if t := texts[r.Intn(len(texts))]; !c12IsCatastrophic(t) && !c12IsDeep(t) {
 			return t
 		}
 	}
@@ -102,6 +108,12 @@ func c12Text(r *Rng) string {
 		n = 17000 + r.Intn(2000)
 	default:
 		n = 100 + r.Intn(800)
+	}
+	if r.Chance(4) {
+		// deep backtracking state: thousands of loop iterations leave the runner's stacks grown far beyond their
+		// initial size (what a pooled runner carries over to the next call)
+		// (always closed by the c the loop patterns look for: without it their scan is quadratic in the length)
+		return strings.Repeat("ab", 4700+r.Intn(600)) + Pick(r, []string{"c", "c7", "c(", "c.ab"})
 	}
 	var sb strings.Builder
 	nf := r.Intn(9)
@@ -458,6 +470,9 @@ func legC12Hist(c *Ctx) {
 			if replaceHeavy && rng.Chance(75) {
 				st.op = 8
 				st.re = Pick(rng, []int{5, 5, 1})
+			}
+			if specs[st.re].timeout != 0 && c12IsDeep(st.text) {
+				st.text = c12Calm(rng, texts)
 			}
 			if specs[st.re].timeout != 0 && c12IsCatastrophic(st.text) && st.op >= 8 {
 				st.op = 1 + rng.Intn(7) // keep the timed-out calls single-scan (cost)
